@@ -6,6 +6,7 @@ from ..index import u, call_name, call_attr, walk_local, base_name
 from .. import flow
 from ..fold import try_fold
 from ..util import stmts_with_env, calls_with_env, assignments_to, single_def, kwarg, str_constants
+from . import shared
 from .common import method, unconditional_in
 from .c02 import locate_writer
 
@@ -27,8 +28,11 @@ def atom_iterator(module, fn, mol_name=None):
             if isinstance(it, ast.Call) and call_name(it) == 'enumerate':
                 it = it.args[0]
             txt = u(it)
-            if txt.endswith('.sorted_nodes') or txt.endswith('.nodes') or txt.endswith('.nodes()') or txt == 'node_order' or txt.endswith('.atoms'):
-                if any(isinstance(c, ast.Call) and call_attr(c) in ('format', 'write', 'append') for s in n.body for c in ast.walk(s)):
+            if txt.endswith('.sorted_nodes') or txt.endswith('.nodes') or txt.endswith('.nodes()') or isinstance(it, ast.Name) or txt.endswith('.atoms') \
+                    or (isinstance(it, ast.Call) and call_name(it) == 'sorted'):
+                if any(isinstance(c, ast.Call) and call_attr(c) in ('format', 'write', 'append') for s in n.body for c in ast.walk(s)) and \
+                        any(isinstance(x, ast.Subscript) and u(x.slice) == u(n.target if not isinstance(n.target, ast.Tuple) else n.target.elts[-1]) and '.nodes' in u(x.value)
+                            for s in n.body for x in ast.walk(s)):
                     out.append((n, it))
     return out
 
@@ -47,8 +51,16 @@ def run(ck):
     iw = locate_writer(ck, itp)
     ck.analysed(pdb, pw)
     ck.analysed(itp, iw)
-    p_it = [u(it).split('.', 1)[1] for n, it in atom_iterator(pdb, pw) if 'format_string' in u(n) or 'ATOM' in u(n)]
-    i_it = [u(it).split('.', 1)[1] for n, it in atom_iterator(itp, iw) if '{atype' in u(n)]
+    def attr_of(it, fn):
+        # resolve a plain name to its definition, then take what follows the molecule object
+        if isinstance(it, ast.Name):
+            d = single_def(fn, it.id)
+            if d is not None:
+                it = d
+        t = u(it)
+        return t.split('.', 1)[1] if '.' in t and not isinstance(it, ast.Call) else t
+    p_it = [attr_of(it, pw) for n, it in atom_iterator(pdb, pw) if 'format_string' in u(n) or 'ATOM' in u(n)]
+    i_it = [attr_of(it, iw) for n, it in atom_iterator(itp, iw) if '{atype' in u(n)]
     ck.ob('SIB-atom-order', pdb.loc(pw), len(p_it) == 1 and len(i_it) == 1 and p_it == i_it == ['sorted_nodes'],
           'the PDB writer visits the atoms of a molecule through `.{}`, the ITP writer through `.{}`: the k-th coordinate record is the k-th ITP atom'.format(
               p_it, i_it), key='SIB-atom-order|pdb-itp')
@@ -217,5 +229,36 @@ def run(ck):
             ok = ok and len(store) == 1 and mid in u(store[0].value) and unconditional_in(nd, outer[0].body, store[0])
     ck.ob('DT-same-moltype', nm.loc(nd), ok, 'a molecule takes the name of the first representative it shares its type with, otherwise a new name (decision = share_moltype_with only)',
           key='DT-same-moltype|naming')
+    # ---- the atom order both writers use: atom id, ties in node order
+    snf = mol.func('Molecule.sorted_nodes')
+    body = [s for s in snf.body if not (isinstance(s, ast.Expr) and isinstance(s.value, ast.Constant))]
+    ok = len(body) == 1 and isinstance(body[0], ast.Expr) and isinstance(body[0].value, ast.YieldFrom) and isinstance(body[0].value.value, ast.Call) \
+        and call_name(body[0].value.value) == 'sorted' and u(body[0].value.value.args[0]) == 'self.nodes'
+    if ok:
+        lam = kwarg(body[0].value.value, 'key')
+        ok = isinstance(lam, ast.Lambda) and u(lam.body) == "self.nodes[{}].get('atomid', np.inf)".format(lam.args.args[0].arg) and kwarg(body[0].value.value, 'reverse') is None
+    ck.ob('SIB-atom-order', mol.loc(snf), ok, 'sorted_nodes orders every node by its atom id (missing id last; id 0 is an id), ties in node order', key='SIB-atom-order|sorted_nodes')
+    # ---- atoms are not reordered, after molecule types were assigned, by an attribute the type comparison ignores
+    cli = idx.mod('bin/martinize2')
+    ent = cli.func('entry')
+    name_calls = [c for c in walk_local(ent) if isinstance(c, ast.Call) and (call_name(c) or '').endswith('NameMolType')]
+    sort_calls = [c for c in walk_local(ent) if isinstance(c, ast.Call) and (call_name(c) or '').endswith('SortMoleculeAtoms')]
+    sm_mod = idx.mod('vermouth/processors/sort_molecule_atoms.py')
+    sinit = sm_mod.func('SortMoleculeAtoms.__init__')
+    from ..util import param_defaults
+    sortby = try_fold(param_defaults(sinit).get('sortby_attrs'), default=())
+    if name_calls and sort_calls and ign is not None:
+        after = [c for c in sort_calls if c.lineno > min(n.lineno for n in name_calls)]
+        for c in after:
+            keys = try_fold(c.args[0], default=None) if c.args else (try_fold(kwarg(c, 'sortby_attrs'), default=None) if kwarg(c, 'sortby_attrs') is not None else sortby)
+            clash = sorted(set(keys or ()) & set(ign))
+            ck.ob('SIB-sort-after-naming', cli.loc(c), not clash,
+                  'atoms are re-sorted (by {}) after the molecule types were assigned; the type comparison ignores {}: two molecules sharing a type can end up '
+                  'in different atom orders while only one ITP is written'.format(list(keys or ()), clash), key='SIB-sort-after-naming|' + ','.join(clash))
     ck.note('molecule-level meta keys printed by the ITP writer (define, pre/post_section_lines) are not compared by share_moltype_with (outside what C03 states)')
+    shared.pure_writer(ck, pdb, pw, [pw.args.args[0].arg])
+    shared.pure_writer(ck, itp, iw, [iw.args.args[0].arg])
+    shared.pure_writer(ck, top, wt, [wt.args.args[0].arg])
+    shared.truthy_zero(ck, ['vermouth/molecule.py', 'vermouth/gmx/itp.py', 'vermouth/gmx/topology.py', 'vermouth/pdb/pdb.py', 'vermouth/processors/name_moltype.py',
+                           'vermouth/processors/sort_molecule_atoms.py'])
     ck.assume('file contents are not decided; equal topologies are assumed to print equal text')
